@@ -83,6 +83,11 @@ def run(ctx):
         pushes = path_calls(st, 'std::vec::Vec::<T, A>::push')
         out_ok = len(pushes) == 2 and has_call(resolve(st, pushes[0][2][1]), 'nla::ntlm::mac') \
             and any(c[0] == 'mutated' and c[1] == PROCESS for c in calls_in(resolve(st, pushes[1][2][1])))
+        if not pushes:
+            # the same two pieces concatenated as byte buffers (`[signature, ciphertext].concat()`) instead of through a trame
+            v_ = strip(resolve(st, st.env.get(0)))
+            parts = byte_parts(v_[3][0]) if v_[0] == 'agg' and v_[3] else []
+            out_ok = len(parts) == 2 and has_call(parts[0], 'nla::ntlm::mac') and any(c[0] == 'mutated' and c[1] == PROCESS for c in calls_in(parts[1]))
         ctx.check(out_ok, 'R16.2', 'wrap:output', 'sealed message = signature || ciphertext', w.where(), 'gss_wrapex does not emit signature followed by ciphertext')
         # R16.4
         sq = mc and unwrap_cast(resolve(st, mc[0][2][2]))
@@ -137,7 +142,8 @@ def run(ctx):
             parts = byte_parts(data)
             order_ok = len(parts) == 2 and ('param', 3) in list(walk(parts[0])) and ('param', 4) in list(walk(parts[1])) \
                 and ('param', 4) not in list(walk(parts[0]))
-            le = any(n[0] == 'agg' and n[1] == 'model::data::Value' and n[2] == 'LE' for n in walk(data))
+            le = any(n[0] == 'agg' and n[1] == 'model::data::Value' and n[2] == 'LE' for n in walk(data)) \
+                or (bool(parts) and has_call(parts[0], re.compile(r'num::<impl u32>::to_le_bytes$')))
             inp = resolve(st, pr[0][2][1])
             rng = [n for n in walk(inp) if n[0] == 'agg' and n[1] == 'std::ops::Range']
             good = unwrap_cast(key) == ('param', 2) and order_ok and le and unwrap_cast(pr[0][3][0]) == ('param', 1) \
